@@ -170,9 +170,29 @@ def vc_tape_pow(H):
             if power == 0:
                 ok = isinstance(r_t, Tape) and r_t.expr == '(1,)' and r_t._keys == (0,) and r_m is one_mv
                 ctx.oblige('C11 sim: x**0 is the scalar 1 in both worlds', bool(ok))
+            elif same(r_t, r_m):
+                ctx.oblige(f'C11 sim: x**{power} builds the same operator tree as MultiVector.__pow__', True)
             else:
-                ctx.oblige(f'C11 sim: x**{power} builds the same operator tree as MultiVector.__pow__', same(r_t, r_m),
-                           meta={'tape': repr(r_t), 'multivector': repr(r_m)})
+                # different bracketing is fine as long as both are products of equally many factors of the same base
+                # (powers of one element associate and commute)
+                base = me if power > 0 else Rec('call', Rec('attr', me, 'inv'), (), {})
+
+                def count(t):
+                    if isinstance(t, Rec) and same(t, base):
+                        return 1
+                    if isinstance(t, Rec) and t.kind == 'call' and isinstance(t.parts[0], Rec) and t.parts[0].kind == 'attr' \
+                            and t.parts[0].parts[1] in ('gp', '__mul__') and len(t.parts[1]) == 1 and not t.parts[2]:
+                        a, b = count(t.parts[0].parts[0]), count(t.parts[1][0])
+                        return None if a is None or b is None else a + b
+                    if isinstance(t, Rec) and t.kind == 'binop' and t.parts[0] == 'Mult':
+                        a, b = count(t.parts[1]), count(t.parts[2])
+                        return None if a is None or b is None else a + b
+                    return None
+                nt, nm = count(r_t), count(r_m)
+                if nt is None or nm is None:
+                    raise OutOfSubset(f'x**{power}: results are not product trees over one base (tape {r_t!r}, multivector {r_m!r})')
+                ctx.oblige(f'C11 sim: x**{power} is a product of equally many factors in both worlds', nt == nm,
+                           meta={'tape': repr(r_t)[:200], 'multivector': repr(r_m)[:200], 'factors': [nt, nm]})
             return r_t
         H.run_paths(ft, f'power={power}', body)
 
